@@ -42,8 +42,8 @@ FAMILIES = {
               AttrChoices="AttrChoicesR", KeyChoices="KeyChoicesR", Versions=[1], Gaps=[1, 2], InitCoins=8),
     # exhaustive, tiny: one provider holding leases of two deployments with different requirements (C08 update guard)
     "RX": dict(BASE, Tenants=["t1"], Providers=["p1"], Auditors=[], DSeqs=[1, 2], GSeqs=[1], OSeqs=[1],
-               GroupChoices="GroupChoicesRX", DepositChoices=[3], PriceChoices=[1], AmountChoices=[1], AttrChoices="AttrChoicesRX",
-               Versions=[1], Gaps=[1], InitCoins=8, MaxHeight=2),
+               GroupChoices="GroupChoicesRX", DepositChoices=[3], PriceChoices=[1], AmountChoices=[], AttrChoices="AttrChoicesRX",
+               Versions=[1], Gaps=[], InitCoins=8, MaxHeight=1),
     # exhaustive: every state and every transition of this bounded model is visited by TLC
     "SX": dict(BASE, Tenants=["t1"], Providers=["p1", "p2"], Auditors=[], DSeqs=[1], GSeqs=[1], OSeqs=[1, 2],
                GroupChoices="GroupChoicesS", DepositChoices=[2], PriceChoices=[1], AmountChoices=[1],
@@ -330,15 +330,15 @@ def run(pid, tier, seed, replay):
             if selft is None:
                 selft = selftest(fam, tr, pid)
         if sim:
-            cov["states"] += len(nodes)
-            cov["transitions"] += len(nodes)
+            cov["states"] += exported
+            cov["transitions"] += exported
         else:
             cov["states"] += r1.distinct
             cov["transitions"] += r1.generated
             cov["exhaustive"] = True
         cov["evaluations"] += nsteps
-        cov["configs"].append({"family": fam, "mode": "simulate" if sim else "exhaustive", "model_states": r1.distinct or len(nodes),
-                               "model_transitions": r1.generated or len(nodes), "exported_states": exported, "replayed_states": len(nodes),
+        cov["configs"].append({"family": fam, "mode": "simulate" if sim else "exhaustive", "model_states": r1.distinct or exported,
+                               "model_transitions": r1.generated or exported, "exported_states": exported, "replayed_states": len(nodes),
                                "alphabet": len(alpha), "impl_steps": nsteps, "j1_wall_s": round(r1.wall_s, 1)})
     cov["drift_steps"] = len(drifts)
     for dmsg in drifts[:20]:
